@@ -52,9 +52,9 @@ pub fn stop(seed: u64) -> Program {
     }
     let stall = g.rng.chance(8);
     let mut threads: Vec<Vec<Op>> = vec![vec![]];
-    let nprod = g.rng.range(1, 3) as usize;
+    let nprod = g.rng.range(1, 2 + g.scale) as usize;
     for _ in 0..nprod {
-        let n = g.rng.range(1, 5) as usize;
+        let n = g.rng.range(1, 5 * g.scale) as usize;
         let mut ops = vec![];
         for _ in 0..n {
             if g.rng.chance(12) {
@@ -167,7 +167,7 @@ pub fn bp(seed: u64) -> Program {
             main.push(Op::Dispatch { store: 0, act: a0, via });
             main.push(Op::Settle);
             held = held || true;
-            let phases = g.rng.range(1, 4);
+            let phases = g.rng.range(1, 4 * g.scale);
             for _ in 0..phases {
                 let n = if policy == Policy::Block { g.rng.range(0, (cap - qlen) as u64) as usize } else { g.rng.range(1, (3 * cap).min(12) as u64) as usize };
                 for _ in 0..n {
@@ -232,7 +232,7 @@ pub fn bp(seed: u64) -> Program {
             knobs.step_limit = 80_000;
             let nprod = g.rng.range(1, 3) as usize;
             for _ in 0..nprod {
-                let n = g.rng.range(1, 6) as usize;
+                let n = g.rng.range(1, 6 * g.scale) as usize;
                 let mut ops = vec![];
                 for _ in 0..n {
                     let a = simple(&mut g);
